@@ -36,12 +36,12 @@ META = {
                     'the objects keep their relative order across the P orders (only reference positions move)',
                     'the "printed number" clause is checked as self-consistency with the target; whether that number is '
                     'LaTeX\'s is C08 (not applicable)'],
-    'probe_names': ['ref_in_title', 'ref_in_footnote', 'forward_ref', 'backward_ref', 'inside_ref', 'two_pending_same_label', 'dangling_ref',
+    'probe_names': ['label_on_empty_caption', 'ref_in_title', 'ref_in_footnote', 'forward_ref', 'backward_ref', 'inside_ref', 'two_pending_same_label', 'dangling_ref',
                     'pageref', 'label_on_item', 'label_on_caption', 'label_on_theorem', 'unlabelled_between'],
     'shrink_budget': 300,
 }
 
-KINDS = ['section', 'subsection', 'equation', 'item', 'item2', 'figure', 'table', 'theorem', 'lemma']
+KINDS = ['section', 'subsection', 'equation', 'item', 'item2', 'figure', 'figure0', 'table', 'theorem', 'lemma']
 
 
 def generate(seed, tier):
@@ -208,6 +208,9 @@ def compile_doc(events):
             lines.append('\\begin{lem}%s %s %s %s\\end{lem}' % (lab, pre, m, post))
         elif k in ('figure', 'table'):
             lines.append('\\begin{%s} %s \\caption{C%s%s}%s %s\\end{%s}' % (k, pre, m, ttl, lab, post, k))
+        elif k == 'figure0':
+            # a float whose caption is EMPTY (the labelled node has no children when later references are read)
+            lines.append('\\begin{figure} %s F%s \\caption{}%s %s\\end{figure}' % (pre, m, lab, post))
         elif k == 'theorem':
             lines.append('\\begin{thm}%s %s %s %s\\end{thm}' % (lab, pre, m, post))
         lines.append('')
@@ -231,7 +234,7 @@ def _all_nodes(node, out):
 
 EXPECT_NODE = {'section': ('section',), 'subsection': ('subsection',), 'equation': ('equation',), 'item': ('item',),
                'figure': ('caption',), 'table': ('caption',), 'theorem': ('thm', 'thmenv'), 'item2': ('item',),
-               'lemma': ('lem', 'thmenv')}
+               'lemma': ('lem', 'thmenv'), 'figure0': ('caption',)}
 
 
 def run_doc(events, objs):
@@ -247,7 +250,12 @@ def run_doc(events, objs):
             if n.nodeName in EXPECT_NODE[o['kind']]:
                 txt = ''
                 try:
-                    if o['kind'] in ('section', 'subsection'):
+                    if o['kind'] == 'figure0':
+                        fig = n.parentNode
+                        while fig is not None and fig.nodeName != 'figure':
+                            fig = fig.parentNode
+                        txt = 'C' + o['m'] if fig is not None and ('F' + o['m']) in str(fig.textContent).split() else ''
+                    elif o['kind'] in ('section', 'subsection'):
                         txt = n.attributes['title'].textContent
                     else:
                         txt = n.textContent
@@ -364,8 +372,10 @@ def _probes(ev, objs, refs, info):
                     info['two_pending_same_label'] = 1
                 if o['kind'] in ('item', 'item2'):
                     info['label_on_item'] = 1
-                if o['kind'] in ('figure', 'table'):
+                if o['kind'] in ('figure', 'table', 'figure0'):
                     info['label_on_caption'] = 1
+                if o['kind'] == 'figure0':
+                    info['label_on_empty_caption'] = 1
                 if o['kind'] in ('theorem', 'lemma'):
                     info['label_on_theorem'] = 1
             else:
@@ -410,6 +420,8 @@ def expected_numbers(objs):
         if k in ('item', 'item2'):
             out[o['m']] = '1' if k == 'item' else '2'
             continue
+        if k == 'figure0':
+            k = 'figure'
         if k == 'lemma':
             k = 'theorem'           # \newtheorem{lem}[thm]{Lemma}: shares the theorem counter
         n[k] += 1
